@@ -191,9 +191,11 @@ namespace xsimd
                 //
                 // https://docs.kernel.org/admin-guide/hw-vuln/gather_data_sampling.html
 
+                // Without OSXSAVE the OS cannot have enabled the YMM / ZMM state (it is
+                // managed through XSAVE only); XMM state may still be handled by FXSAVE.
                 unsigned sse_state_os_enabled = 1;
-                unsigned avx_state_os_enabled = 1;
-                unsigned avx512_state_os_enabled = 1;
+                unsigned avx_state_os_enabled = 0;
+                unsigned avx512_state_os_enabled = 0;
 
                 // OSXSAVE: A value of 1 indicates that the OS has set CR4.OSXSAVE[bit
                 // 18] to enable XSETBV/XGETBV instructions to access XCR0 and
